@@ -226,3 +226,26 @@ Theorem clear_suffix_collides sep root p q c :
   make_rng_key sep (clear_suffix (mkLazy root p)) c = make_rng_key sep (clear_suffix (mkLazy root q)) c /\
   make_rng_key sep (clear_suffix (mkLazy root p)) c = make_rng_key sep (mkLazy root []) c.
 Proof. split; reflexivity. Qed.
+
+(* the counts of the branch that ran and the count of the draw after the transform are pairwise different and all new *)
+Lemma sum_firstn_le (ds : list nat) : forall i, i < length ds ->
+  fold_right Nat.add 0 (firstn i ds) + nth i ds 0 <= fold_right Nat.add 0 ds.
+Proof.
+  induction ds as [|d r IH]; intros i Hi; cbn [length] in Hi; [lia|].
+  destruct i as [|i]; cbn [firstn nth fold_right]; [lia|]. specialize (IH i ltac:(lia)). lia.
+Qed.
+Lemma NoDup_snoc_nat (l : list nat) x : NoDup l -> ~ In x l -> NoDup (l ++ [x]).
+Proof.
+  induction l as [|a r IH]; intros ND Hx; cbn [app]; [constructor; [intros []|constructor]|].
+  inversion ND; subst. constructor.
+  - intros Hin. apply in_app_or in Hin as [Hin|[Hin|[]]]; [contradiction|]. subst. apply Hx. now left.
+  - apply IH; [assumption|]. intros Hin. apply Hx. now right.
+Qed.
+Theorem branch_draws_distinct entry ds i : i < length ds ->
+  NoDup (branch_counts entry ds i ++ [count_after entry ds]) /\
+  forall c, In c (branch_counts entry ds i ++ [count_after entry ds]) -> entry < c.
+Proof.
+  intros Hi. pose proof (sum_firstn_le ds i Hi) as Hs. unfold branch_counts, count_after. split.
+  - apply NoDup_snoc_nat; [apply seq_NoDup|]. intros Hin. apply in_seq in Hin. lia.
+  - intros c Hc. apply in_app_or in Hc as [Hc|[<-|[]]]; [apply in_seq in Hc; lia|lia].
+Qed.
